@@ -22,12 +22,47 @@ LEVEL = "model_checking"
 # holding "the last" pattern / activation / result, collides observably); thread 2 runs a different
 # text.  Every program has short-circuit operators, a conditional, a macro, a regular expression and
 # a size(), i.e. it defines the same scratch names ex_N.. with different meanings per thread.
-RICH = '([1, 2].exists(v, v == x) || s.matches(p)) ? x * 10 + size(s) : ((x > 1 && y) ? x + 100 : x + 200)'
+RICH = '([1, 2].exists(v, v == x) || s.matches(p)) ? h(x) * 10 + size(s) : ((x > 1 && y) ? x.h() + 100 : h(x) + 200)'
+DEEP_LEVELS = {"I": 40, "C": 60}     # nesting that needs the raised recursion limit under that runner (default limit: 28 / 48 levels)
+
+
+def h0(x):          # module-level host functions: threads 0 and 1 bind DIFFERENT functions under the same CEL name
+    import celpy.celtypes as ct
+    return ct.IntType(int(x) + 1)
+
+
+def h1(x):
+    import celpy.celtypes as ct
+    return ct.IntType(int(x) + 3)
+
+
+def _h2():
+    import celpy.celtypes as ct
+    return lambda x: ct.IntType(int(x) + 5)
+
+
 THREADS = [
-    (RICH, [{"x": 1, "y": False, "s": "keep", "p": "^ke+p$"}, {"x": 5, "y": True, "s": "drop", "p": "^k"}]),
-    (RICH, [{"x": 7, "y": True, "s": "dropped", "p": "^dr.p"}, {"x": 0, "y": True, "s": "kk", "p": "^k$"}]),
-    ('[3, 6].exists(v, v == x) ? x + 1000 : (s.matches(p) && y ? x + 2000 : x + 3000)', [{"x": 6, "y": True, "s": "abc", "p": "b"}, {"x": 4, "y": True, "s": "abc", "p": "^b"}]),
+    (RICH, [{"x": 1, "y": False, "s": "keep", "p": "^ke+p$"}, {"x": 5, "y": True, "s": "drop", "p": "^k"}], "h0"),
+    (RICH, [{"x": 7, "y": True, "s": "dropped", "p": "^dr.p"}, {"x": 0, "y": True, "s": "kk", "p": "^k$"}], "h1"),
+    ('[3, 6].exists(v, v == x) ? h(x) + 1000 : (s.matches(p) && y ? h(x) + 2000 : x.h() + 3000)', [{"x": 6, "y": True, "s": "abc", "p": "b"}, {"x": 4, "y": True, "s": "abc", "p": "^b"}], "h2"),
+    # a deeply nested expression: only evaluable while the process-wide recursion limit is the one the library raises
+    ("DEEP", [{"x": 41, "y": True, "s": "zz", "p": "^z"}, {"x": 43, "y": False, "s": "zzz", "p": "z$"}], None),
 ]
+
+
+def expr_of(tidx, kind):
+    e = THREADS[tidx][0]
+    if e == "DEEP":
+        n = DEEP_LEVELS[kind]
+        return "(" * n + "x" + ")" * n + " + 1"
+    return e
+
+
+def functions_of(tidx):
+    name = THREADS[tidx][2]
+    if name is None:
+        return None
+    return {"h": {"h0": h0, "h1": h1}[name] if name in ("h0", "h1") else _h2()}
 
 
 def opcode_objects():
@@ -45,7 +80,7 @@ def to_cel(b):
 
 
 def make_body(tidx, kind, nevals, phase):
-    expr, binds = THREADS[tidx]
+    expr, binds = expr_of(tidx, kind), THREADS[tidx][1]
 
     def body():
         import celpy
@@ -54,7 +89,7 @@ def make_body(tidx, kind, nevals, phase):
         phase[0] = "build"
         try:
             env = celpy.Environment(runner_class=R)
-            prog = env.program(env.compile(expr))
+            prog = env.program(env.compile(expr), functions=functions_of(tidx))
         except Exception as ex:  # noqa
             return [outcome.of_exception(ex, "program")] * nevals
         phase[0] = "eval"
@@ -86,11 +121,11 @@ def exec_batch(cfg, prefixes):
     On first use in a process the bodies are run once untraced and the state restored, which only
     warms interpreter-level caches (a cold traced run costs seconds after a fork)."""
     from ..explore import procstate
-    mix, nevals, warm, opcode, gran, only = cfg
+    mix, nevals, warm, opcode, gran, only, tids = cfg
     if _WORKER["cfg"] is None:
         warm_up(warm)
         snap = procstate.snapshot()
-        for i, k in enumerate(mix):
+        for i, k in zip(tids, mix):
             make_body(i, k, nevals, [None])()
         procstate.restore(snap)
         _WORKER.update(cfg=cfg, snap=snap)
@@ -100,7 +135,7 @@ def exec_batch(cfg, prefixes):
     out = []
     for prefix in prefixes:
         phases = [[None] for _ in mix]
-        bodies = [make_body(i, k, nevals, phases[i]) for i, k in enumerate(mix)]
+        bodies = [make_body(t, k, nevals, phases[i]) for i, (t, k) in enumerate(zip(tids, mix))]
         res = sched.execute(bodies, prefix, opcode_code_objects=opcode_objects() if opcode else (), phases=phases, granularity=gran, only_phase=only)
         res["left_behind"] = procstate.restore(snap)
         out.append(res)
@@ -166,8 +201,9 @@ def vec_of(res):
     return tuple(tuple(r[1]) if r and r[0] == "ok" else (("THREAD-EXC",) + tuple(r[1:]) if r else None) for r in res["results"])
 
 
-def first_bad(mix, vec, solos):
-    for t, (k, r) in enumerate(zip(mix, vec)):
+def first_bad(mix, vec, solos, tids=None):
+    for pos, (k, r) in enumerate(zip(mix, vec)):
+        t = pos if tids is None else tids[pos]
         if r != solos[(t, k)]:
             return t, k, r
     return None
@@ -175,7 +211,7 @@ def first_bad(mix, vec, solos):
 
 def explore(ctx, cfg, bound, solos, label, cap=None, window="all"):
     """Iterative context bounding for one configuration; returns counters."""
-    mix, nevals, warm, opcode, gran, only = cfg
+    mix, nevals, warm, opcode, gran, only, tids = cfg
     frontier = [[]]
     executed = 0
     vectors = collections.Counter()
@@ -213,7 +249,7 @@ def explore(ctx, cfg, bound, solos, label, cap=None, window="all"):
             if res.get("left_behind"):
                 leftovers.update(res["left_behind"])
             ctx.part.outcome('|'.join(','.join(outcome.short(o) if isinstance(o, tuple) and o and o[0] in 'VEXP' else str(o) for o in (r or ())) for r in vec)[:150])
-            bad = first_bad(mix, vec, solos)
+            bad = first_bad(mix, vec, solos, tids)
             if bad is not None:
                 viol += 1
                 t, k, r = bad
@@ -221,10 +257,10 @@ def explore(ctx, cfg, bound, solos, label, cap=None, window="all"):
                 c1 = run_schedule((cfg, res["choices"]))
                 c2 = run_schedule((cfg, res["choices"]))
                 v1, v2 = vec_of(c1), vec_of(c2)
-                witness = {"mix": list(mix), "nevals": nevals, "warm": list(warm), "opcode": opcode, "granularity": gran, "only_phase": only, "schedule": res["choices"], "thread": t}
+                witness = {"mix": list(mix), "nevals": nevals, "warm": list(warm), "opcode": opcode, "granularity": gran, "only_phase": only, "tids": list(tids), "schedule": res["choices"], "thread": t}
                 if v1 != v2:
                     raise runner.HarnessError(f"{label}: schedule replay is not deterministic: {v1} vs {v2}")
-                if first_bad(mix, v1, solos) is None:
+                if first_bad(mix, v1, solos, tids) is None:
                     # only fails after the earlier schedules of its batch: report the whole batch history
                     pid, seq, j = where_run[tuple(prefix)]
                     hist = []
@@ -234,7 +270,7 @@ def explore(ctx, cfg, bound, solos, label, cap=None, window="all"):
                         elif sq == seq:
                             hist.extend(b[: j + 1])
                     h1 = run_batch((cfg, hist))[-1]
-                    if first_bad(mix, vec_of(h1), solos) is None:
+                    if first_bad(mix, vec_of(h1), solos, tids) is None:
                         raise runner.HarnessError(f"{label}: violation at schedule {prefix} reproduces neither alone nor after its worker's history")
                     witness["history"] = hist
                     witness["left_behind"] = h1.get("left_behind")
@@ -247,8 +283,8 @@ def explore(ctx, cfg, bound, solos, label, cap=None, window="all"):
                 exp = [outcome.short(o) for o in solos[(t, k)]]
                 cls = cls0 + ("thread-exception" if (r and r[0] == "THREAD-EXC") else ("X-outcome" if any(isinstance(o, tuple) and o and o[0] == "X" for o in (r or [])) else "wrong-result"))
                 ctx.part.violation(
-                    cls, f"mix={''.join(mix)}:warm={''.join(warm) or '-'}:{cls}:preempt@{','.join(sw) or 'none'}", witness,
-                    f"thread {t} ({k}, {THREADS[t][0]!r}) returned {got}, solo gives {exp}; preemptions at {sw}; schedule has {len(res['choices'])} points")
+                    cls, f"mix={''.join(mix)}{'' if tids == tuple(range(len(mix))) else '/threads=' + ','.join(map(str, tids))}:warm={''.join(warm) or '-'}:{cls}:preempt@{','.join(sw) or 'none'}", witness,
+                    f"thread {t} ({k}, {expr_of(t, k)[:90]!r}) returned {got}, solo gives {exp}; preemptions at {sw}; schedule has {len(res['choices'])} points")
             nxt.extend(sched.children(res, len(prefix), bound, window=(None if window == "all" else (lambda i, pt: pt[4] == window))))
         frontier = nxt
         depth += 1
@@ -267,6 +303,9 @@ def run(ctx):
             (("C", "C"), ("C",), 2, False, "eval", "call"), (("C", "I"), (), 2, False, "eval", "call"),
             (("C", "C", "I"), (), 1, False, "eval", "call"), (("C", "C", "C"), ("C",), 1, False, "eval", "call"),
             (("C", "C"), ("C",), 1, True, "eval", "line"), (("I", "I"), (), 1, False, "eval", "call"),
+            # the deep thread (3) beside a rich one: API-level switch points, higher bounds
+            (("I", "I"), (), 3, False, "all", "shallow:3", (0, 3)), (("C", "C"), (), 3, False, "all", "shallow:3", (0, 3)), (("I", "C"), (), 2, False, "all", "shallow:4", (3, 1)),
+            (("I", "I"), (), 1, False, "eval", "call", (0, 3)), (("C", "C"), (), 1, False, "all", "call", (1, 3)),
         ]
     else:
         plan = [
@@ -275,6 +314,9 @@ def run(ctx):
             (("C", "C"), (), 1, False, "eval", "line"),
             (("I", "I"), (), 0, False, "all", "call"),
             (("C", "C", "I"), (), 0, False, "all", "call"),
+            # the deep thread (3) beside a rich one: API-level switch points, two preemptions
+            (("I", "I"), (), 2, False, "all", "shallow:3", (0, 3)),
+            (("C", "C"), (), 2, False, "all", "shallow:3", (0, 3)),
         ]
     # solo references: fresh fork, cross-checked against a fresh python subprocess
     solos = {}
@@ -282,7 +324,7 @@ def run(ctx):
     for t in range(len(THREADS)):
         for k in ("I", "C"):
             ref = tuple(solo_subprocess(t, k, nevals))
-            for warm in {w for (_m, w, _b, _o, _w, _g) in plan}:
+            for warm in {e[1] for e in plan}:
                 got = tuple(runner.pmap(solo_task, [(t, k, nevals, warm)], nproc=1)[0])
                 # a warm zygote of the *other* kind may legitimately differ only if the tree is broken; compare anyway
                 if got != ref and not warm:
@@ -293,35 +335,39 @@ def run(ctx):
                 raise runner.HarnessError(f"solo run of thread {t}/{k} does not produce values: {ref}")
     # forced-collision check: program i on thread j's bindings, and program j on thread i's bindings,
     # must both differ from thread i's own result (brute force over the cross combinations)
-    for i, (e, bi) in enumerate(THREADS):
-        for j, (e2, bj) in enumerate(THREADS):
+    for i in range(len(THREADS)):
+        for j in range(len(THREADS)):
             if i == j:
                 continue
+            e, e2, bi, bj = expr_of(i, "I"), expr_of(j, "I"), THREADS[i][1], THREADS[j][1]
             for n in range(nevals):
-                a = subprocess_free_eval(e, bi[n])
-                b = subprocess_free_eval(e, bj[n])
-                c = subprocess_free_eval(e2, bi[n])
-                if a == b or (e2 != e and a == c):
-                    raise runner.HarnessError(f"bindings of threads {i} and {j} do not collide observably for {e!r}: {a} {b} {c}")
+                a = subprocess_free_eval(e, bi[n], i)
+                b = subprocess_free_eval(e, bj[n], i)
+                c = subprocess_free_eval(e2, bi[n], j)
+                d = subprocess_free_eval(e, bi[n], j) if THREADS[i][2] and THREADS[j][2] else None     # thread i's program calling thread j's host function
+                if a == b or (e2 != e and a == c) or a == d:
+                    raise runner.HarnessError(f"threads {i} and {j} do not collide observably for {e[:80]!r}: {a} {b} {c} {d}")
     total_exec = total_trans = 0
     distinct = set()
     per_cfg = {}
-    for mix, warm, bound, opcode, window, gran in plan:
-        cfg = (mix, nevals if (gran == "call" and bound < 2) else 1, warm, opcode, gran, (window if window != "all" else None))
-        label = f"{''.join(mix)}/warm={''.join(warm) or '-'}/bound={bound}/window={window}/{gran}{'+opcode' if opcode else ''}"
+    for entry in plan:
+        mix, warm, bound, opcode, window, gran = entry[:6]
+        tids = tuple(entry[6]) if len(entry) > 6 else tuple(range(len(mix)))
+        cfg = (mix, nevals if ((gran == "call" and bound < 2) or gran.startswith("shallow")) else 1, warm, opcode, gran, (window if window != "all" else None), tids)
+        label = f"{''.join(mix)}{'' if tids == tuple(range(len(mix))) else '[threads ' + ','.join(map(str, tids)) + ']'}/warm={''.join(warm) or '-'}/bound={bound}/window={window}/{gran}{'+opcode' if opcode else ''}"
         st = explore(ctx, cfg, bound, solos if cfg[1] == nevals else {k: v[:cfg[1]] for k, v in solos.items()}, label, window=window)
         per_cfg[label] = st
         total_exec += st["executed"]
         total_trans += st["transitions"]
         ctx.part.case(nontrivial=True, n=st["executed"])
         ctx.part.space(label, st["executed"], st["executed"], bound=f"{bound} preemption(s)")
-    ctx.part.sample({"threads": [{"expr": e, "bindings": b[:nevals]} for e, b in THREADS], "example_schedule": "choice list, one entry per scheduling point; 0 = keep running the current thread"})
+    ctx.part.sample({"threads": [{"expr": expr_of(i, "I")[:120], "bindings": t[1][:nevals], "host_function_h": t[2]} for i, t in enumerate(THREADS)], "example_schedule": "choice list, one entry per scheduling point; 0 = keep running the current thread"})
     ctx.part.sample({"configurations": per_cfg})
     ctx.rule = ("an execution is one complete schedule of the thread bodies (create Environment, compile, program, evaluate twice) in a fresh fork; "
                 "all schedules with at most the stated number of preemptions, placed at every Python line (granularity line) or at every function entry (granularity call) inside celpy/*.py and the generated module, are enumerated per "
                 "configuration (runner mix x cold/warm parser state); each execution is non-trivial (its result vectors are compared with the solo vectors)")
     ctx.assumptions = ["switch points are Python line events inside the library and generated code (opcode events in the listed functions for the opcode configuration); C-level callee internals are atomic under the GIL",
-                       "2-3 threads, two evaluations each; preemption bound as stated per configuration",
+                       "2-3 threads, two evaluations each; preemption bound as stated per configuration; granularity shallow:K = function entries with fewer than K library frames beneath them",
                        "lark.Lark construction memoised by the harness (the check-then-create logic stays the library's own)"]
     ctx.coverage_extra.update({
         "states": total_trans, "transitions": total_trans, "schedules": total_exec,
@@ -331,32 +377,34 @@ def run(ctx):
     })
 
 
-def subprocess_free_eval(expr, b):
+def subprocess_free_eval(expr, b, fn_of=None):
     """Evaluate in a fork (keeps the parent free of Environments)."""
     def f():
         import celpy
         env = celpy.Environment()
-        return outcome.run(lambda: env.program(env.compile(expr)).evaluate(to_cel(b)))
+        return outcome.run(lambda: env.program(env.compile(expr), functions=None if fn_of is None else functions_of(fn_of)).evaluate(to_cel(b)))
     return sched.run_in_fork(f)[1]
 
 
 def replay(w):
     wit = w["witness"]
     repo.prebuild_parsers()
-    cfg = (tuple(wit["mix"]), wit["nevals"], tuple(wit["warm"]), wit["opcode"], wit.get("granularity", "line"), wit.get("only_phase"))
+    cfg = (tuple(wit["mix"]), wit["nevals"], tuple(wit["warm"]), wit["opcode"], wit.get("granularity", "line"), wit.get("only_phase"),
+           tuple(wit.get("tids", range(len(wit["mix"])))))
     outs = []
     for _ in range(2):
         res = run_schedule((cfg, wit["schedule"]))
         outs.append(res["results"])
     t = wit["thread"]
-    ref = solo_subprocess(t, wit["mix"][t], wit["nevals"])
+    pos = cfg[6].index(t)
+    ref = solo_subprocess(t, wit["mix"][pos], wit["nevals"])
     print("schedule of", len(wit["schedule"]), "points; thread", t, "solo:", [outcome.short(o) for o in ref])
-    print("run 1:", outs[0][t])
-    print("run 2:", outs[1][t])
+    print("run 1:", outs[0][pos])
+    print("run 2:", outs[1][pos])
     if outs[0] != outs[1]:
         print("HARNESS-ERROR replay not deterministic")
         return 3
-    r = outs[0][t]
+    r = outs[0][pos]
     bad = not (r and r[0] == "ok" and tuple(tuple(o) for o in r[1]) == tuple(tuple(o) for o in ref))
     print("REPRODUCED" if bad else "not reproduced")
     return 1 if bad else 0
